@@ -19,7 +19,8 @@ Inputs == {"none", "text", "text_multiline", "lineprotocol", "lp_comment_first",
 Outputs == {"json", "lineprotocol"}
 \* crlfField: the script file has CR LF line ends, also inside a multi-line string literal whose value it stores: the script
 \* that runs is the file's bytes, nothing is normalised on the way
-Kinds == {"noop", "addField", "crlfField", "toTag", "setMeas", "clearMeas", "setTime", "dropMsg", "useSibling", "loadErr", "runErr", "linkErr"}
+\* nilField: the script leaves a field whose value is nil: it is part of the point and is printed (JSON null)
+Kinds == {"noop", "addField", "crlfField", "nilField", "toTag", "setMeas", "clearMeas", "setTime", "dropMsg", "useSibling", "loadErr", "runErr", "linkErr"}
 
 VARIABLES cfg, phase, pt, snap, out, err
 vars == <<cfg, phase, pt, snap, out, err>>
@@ -27,7 +28,7 @@ vars == <<cfg, phase, pt, snap, out, err>>
 Pt0 == [meas |-> "in", time |-> "in", added |-> FALSE, totag |-> FALSE, dropped |-> FALSE, fromlib |-> FALSE]
 None == [meas |-> "-", time |-> "-", added |-> FALSE, totag |-> FALSE, dropped |-> FALSE, fromlib |-> FALSE]
 
-Effect(k, p) == CASE k \in {"addField", "crlfField"} -> [p EXCEPT !.added = TRUE]
+Effect(k, p) == CASE k \in {"addField", "crlfField", "nilField"} -> [p EXCEPT !.added = TRUE]
                   [] k = "toTag" -> [p EXCEPT !.totag = TRUE]
                   [] k = "setMeas" -> [p EXCEPT !.meas = "new"]
                   [] k = "clearMeas" -> [p EXCEPT !.meas = "empty"]     \* set_measurement(""): an empty name is still the script's result
@@ -38,6 +39,7 @@ Effect(k, p) == CASE k \in {"addField", "crlfField"} -> [p EXCEPT !.added = TRUE
 
 Init == /\ cfg \in [mode : Modes, input : Inputs, output : Outputs, kind : Kinds]
         /\ (cfg.kind \in {"useSibling", "linkErr"} => cfg.mode \in {"workspace", "workspace_ppl"})      \* a sibling needs a workspace
+        /\ (cfg.kind = "nilField" => cfg.output = "json")                           \* line protocol has no spelling for nil
         /\ (cfg.kind = "clearMeas" => cfg.output = "json")                          \* line protocol cannot encode an empty name
         /\ (cfg.kind = "toTag" /\ cfg.input = "text_multiline" => cfg.output = "json")  \* ... nor a line break inside a tag value
         /\ phase = "start" /\ pt = None /\ snap = None /\ out = None /\ err = "none"
